@@ -4,7 +4,7 @@ Applies the patch to /repo (working tree only), runs the checks, restores /repo,
 checks reported a VIOLATION. Never commits anything in /repo."""
 import json, os, subprocess, sys, time
 args = sys.argv[1:]
-d = args[0]
+d = os.path.abspath(args[0])
 tier = "quick"; seed = "1"
 props = []
 i = 1
